@@ -71,6 +71,11 @@ var c10Floats = []float64{0, 1, -1, 1.5, -2.25, 3, 100, 1e6, 0.1, 1e-7, 12345678
 	math.MaxFloat64, math.SmallestNonzeroFloat64, 9007199254740993, 0.30000000000000004}
 var c10Ints = []int64{0, 1, -1, 7, -5, 42, 1 << 31, -(1 << 31), 1<<53 + 1, math.MaxInt64, -math.MaxInt64}
 
+// float32 literals: dyadic values (same digits at either width) AND values whose shortest float32 digits are NOT the
+// digits of the widened float64 (0.1f = 0.10000000149011612): an emitter that formats a float32 at width 32 prints a
+// decimal that reads back as another number (seed C10-r6-1).
+var c10Float32s = []float64{0.5, 2, -3.25, 16777216, 0.1, -0.3, 1.1, 3.4e-5, 16777217.0 / 3, 1e-10, math.MaxFloat32, 33554434.5}
+
 func fstr(f float64) string { return strconv.FormatFloat(f, 'g', -1, 64) }
 
 func (g *c10Gen) varRefs() []string {
@@ -168,7 +173,7 @@ func (g *c10Gen) litSpec() *sx {
 		g.stats.Inc("float_literal")
 		return call("f", sxStr(fstr(Pick(g.rng, c10Floats))))
 	case 6:
-		return call("f32", sxStr(fstr(float64(float32(Pick(g.rng, []float64{0.5, 2, -3.25, 16777216}))))))
+		return call("f32", sxStr(fstr(float64(float32(Pick(g.rng, c10Float32s))))))
 	case 7:
 		return call("b", a(strconv.FormatBool(g.rng.Bool())))
 	case 8:
@@ -1188,6 +1193,40 @@ func (r *c10Runner) Step(t []string, raw string) string {
 	_, text2nd, fail2 := neoText()
 	checkMutation("neo4j.QueryBuilder#2")
 	textB1 := builderText()
+	// --- isolation of APPLIED criteria (seed C10-r6-2): a builder that keeps the caller's *Limit / *Skip / *Order by
+	// reference emits whatever the caller does to them between Apply and Prepare. A fresh set of criteria objects is
+	// applied, the caller then edits its own objects, and the text must still be the text of what was applied.
+	if fail == "" && mutated == "ok" {
+		fresh := (&c10Builder{}).top(term)
+		q3 := qn.NewEmptyQueryBuilder()
+		for _, c := range fresh {
+			q3.Apply(c)
+		}
+		edited := false
+		for _, c := range fresh {
+			switch t := c.(type) {
+			case *cypher.Limit:
+				t.Value = query.Literal(987654)
+				edited = true
+			case *cypher.Skip:
+				t.Value = query.Literal(876543)
+				edited = true
+			case *cypher.Order:
+				for _, item := range t.Items {
+					item.Ascending = !item.Ascending
+					edited = true
+				}
+			}
+		}
+		if edited {
+			r.stats.Inc("applied_criteria_edited_before_prepare")
+			if err := q3.Prepare(); err == nil {
+				if text3, err := q3.Render(); err == nil && text3 != text {
+					mutated = "neo4j.QueryBuilder emits the caller's later edits of applied criteria: applied=" + c10Quote(text) + " emitted=" + c10Quote(text3)
+				}
+			}
+		}
+	}
 	idem := "ok"
 	switch {
 	case fail != fail2 || text != text2nd:
